@@ -410,9 +410,52 @@ def run_C08(ctx, rng, tier, res, known):
         if i % max(1, len(lines) // 5) == 0:
             res.samples.append(dict(case=line[:200], impl_release=impl[(ctx.cfgs[0], "release")][i], impl_dbg=impl[(ctx.cfgs[0], ctx.profiles[-1])][i]))
     res.extra["outcomes"] = dict(value=nval, panic=npanic)
+    site_log_correspondence(ctx, rng, res, lines, 1500 if q else 20000)
     if tier == "thorough":
         miri_pass(ctx, res, [l for l in lines if len(l) < 2500][:120] + miri_valid_slow_cases(rng), ("std", "std+alloc"))
     return {}
+
+def site_log_correspondence(ctx, rng, res, garbage_lines, n):
+    """the real code's log of unchecked table reads (verif hook: table id, index, table length) must equal the
+    model's log (SitesAll.parseFloatLog, about which C08_final is proved) on the same inputs; an index >= length
+    in the real log is an out-of-bounds read: violation with the input as replay"""
+    base = [l for l in garbage_lines if len(l) < 3000]
+    sel = base if len(base) <= n // 2 else rng.sample(base, n // 2)
+    lines = ["pfl" + l[2:] for l in sel]
+    for f in ("f32", "f64"):
+        for line, fam in gens.gen_boundary(rng, f, n // 8) + gens.gen_random_valid(rng, f, n // 8) + gens.gen_bigint_ties(rng, f, n // 16):
+            lines.append("pfl" + line.split(" ## ")[0][2:])
+    hist = {}
+    total = 0
+    for c in ("std", "std+alloc", "std+compact"):
+        if c not in ctx.cfgs:
+            continue
+        M = run_logmodel(c, lines)
+        for p in ctx.profiles:
+            I = run_impl(c, p, lines)
+            for line, a, b in zip(lines, I, M):
+                total += 1
+                if a.startswith("abort"):
+                    res.viol.append(("abort", dict(case=line[:500], cfg=c, profile=p, impl=a)))
+                    continue
+                if " log " not in a or " log " not in b:
+                    continue
+                ao, al = a.split(" log ")
+                bo, bl = b.split(" log ")
+                for ent in ([] if al == "-" else al.split(",")):
+                    sid, idx, bnd = (int(x) for x in ent.split(":"))
+                    hist["%d" % sid] = hist.get("%d" % sid, 0) + 1
+                    if idx >= bnd:
+                        res.viol.append(("out-of-bounds-table-read", dict(case=line[:500], cfg=c, profile=p, table=sid, index=idx, length=bnd)))
+                if ao.startswith("panic") or bo.startswith("panic") or p == "dbg":
+                    # a panicking run stops early (and a checked build may trap earlier): its log is a prefix
+                    if not bl.startswith(al if al != "-" else "") and al != "-":
+                        res.drift.append(dict(case=line[:300], cfg=c, profile=p, impl=a[:200], model=b[:200], note="site log not a prefix of the model's"))
+                elif al != bl:
+                    res.drift.append(dict(case=line[:300], cfg=c, profile=p, impl=a[:200], model=b[:200], note="site log differs from the model's"))
+    res.evals += total
+    res.extra["site_log_lines"] = total
+    res.extra["site_log_reads_by_table"] = hist
 
 def miri_valid_slow_cases(rng):
     out = []
